@@ -88,7 +88,9 @@ class Translate(Domain):
         # domain_bounds are in shape [x_min, x_max, y_min, y_max, ...]
         # both min and max have to be shifted by the same value
         new_bounds = domain_bounds + translation_values
-        return new_bounds
+        # for a single parameter row return the flat form [x_min, x_max, y_min, ...]
+        # that all other domains return (e.g. needed for the LHS sampler)
+        return new_bounds.squeeze(0)
 
     @property
     def boundary(self):
